@@ -128,6 +128,7 @@ type EndCfg struct {
 	NoTickets    bool     `json:"no_tickets,omitempty"`
 	Cache        bool     `json:"cache,omitempty"` // client: use a session cache
 	KeyKind      string   `json:"key,omitempty"`   // server: rsa | p256 | p384 | ed
+	KeyKind2     string   `json:"key2,omitempty"`  // server: a second certificate with another key type (Config.Certificates[1])
 	ClientAuth   int      `json:"client_auth,omitempty"`
 	ClientCert   string   `json:"client_cert,omitempty"` // client: key kind of its certificate, "" = none
 	NoBuffer     bool     `json:"no_buffer,omitempty"`
@@ -198,6 +199,9 @@ func serverConfig(e EndCfg, s *kit.Sim, rng *kit.Rng) *tls.Config {
 		ExtendedMasterSecret:        e.EMS,
 		Rand:                        kit.NewReader(rng),
 		Time:                        s.Now,
+	}
+	if e.KeyKind2 != "" {
+		c.Certificates = append(c.Certificates, tlsCert(p.Server[e.KeyKind2], true, keyOfKind[e.KeyKind2]))
 	}
 	return c
 }
